@@ -87,6 +87,13 @@ type Step struct {
 	Gate   int    `json:"gate,omitempty"`
 	// Rows (step "aclset"): the operator replaces the ACL table
 	Rows []ACLRow `json:"rows,omitempty"`
+	// At (poll steps that directly follow the Subscribe step or another poll
+	// step): when the client issues the trigger.  0: after the subscriber became
+	// quiescent.  1: at the moment it receives the previous sync_response, i.e.
+	// inside the stream's Send of that response, which returns only after the
+	// server has read the trigger (a synchronous, zero-latency stream).  2: from
+	// a goroutine started inside that Send (racing with its return).
+	At int `json:"at,omitempty"`
 	// Trig (poll steps): what the client sends as the trigger, whose contents the
 	// server must ignore: 0 a Poll message, 1 the Subscribe request again, 2 a
 	// request with no oneof set.
@@ -154,6 +161,11 @@ type Case struct {
 	Req2  *Req    `json:"req2,omitempty"`
 	User2 *string `json:"user2,omitempty"`
 	View  string  `json:"view,omitempty"`
+	// ACLErr: the kind of error NewRPCACL fails with (plain error, gRPC status
+	// errors of several codes, wrapped status errors, an error whose status has
+	// code OK, context.DeadlineExceeded); ACLDown: it fails for every caller.
+	ACLErr  int  `json:"acl_err,omitempty"`
+	ACLDown bool `json:"acl_down,omitempty"`
 	// faults of the stream (first call, first run only): SendFailAt = k > 0: the k-th
 	// Send returns an error; RecvErrAt = j > 0: the j-th poll trigger's Recv returns
 	// an error other than EOF.  FaultHit / RecvHit are observations: the fault
@@ -276,6 +288,37 @@ type userKey struct{}
 type fakeACL struct {
 	mu   sync.Mutex
 	rows []ACLRow
+	// how NewRPCACL fails (when the context names no user, or always if down)
+	errKind int
+	down    bool
+}
+
+// okStatusError is an error whose gRPC status has code OK.
+type okStatusError struct{}
+
+func (okStatusError) Error() string              { return "acl backend: ok?" }
+func (okStatusError) GRPCStatus() *status.Status { return status.New(codes.OK, "") }
+
+func aclError(kind int) error {
+	switch kind {
+	case 1:
+		return status.Error(codes.Unavailable, "policy service unavailable")
+	case 2:
+		return status.Error(codes.PermissionDenied, "policy service: denied")
+	case 3:
+		return fmt.Errorf("acl backend: %w", status.Error(codes.NotFound, "no such principal"))
+	case 4:
+		return okStatusError{}
+	case 5:
+		return status.Error(codes.InvalidArgument, "bad credentials")
+	case 6:
+		return context.DeadlineExceeded
+	case 7:
+		return fmt.Errorf("acl backend: %w", okStatusError{})
+	case 8:
+		return status.Error(codes.Internal, "policy service crashed")
+	}
+	return errors.New("no user in context")
 }
 
 func (a *fakeACL) set(rows []ACLRow) {
@@ -304,8 +347,8 @@ func (r *rpcACL) Check(dev string) bool { return r.a.Check(r.user, dev) }
 
 func (a *fakeACL) NewRPCACL(ctx context.Context) (subscribe.RPCACL, error) {
 	u, ok := ctx.Value(userKey{}).(string)
-	if !ok {
-		return nil, errors.New("no user in context")
+	if !ok || a.down {
+		return nil, aclError(a.errKind)
 	}
 	return &rpcACL{a: a, user: u}, nil
 }
@@ -317,6 +360,12 @@ type memStream struct {
 	mu    sync.Mutex
 	cur   []OResp
 	syncs int64 // sync responses sent so far (atomic)
+	// a trigger the client issues when it receives the next sync_response
+	armed   *pb.SubscribeRequest
+	armMode int
+	fired   bool
+	split   int // responses recorded up to the sync that fired the trigger; -1: none
+	stash   []OResp
 	// fault injection
 	failAt, sends, failK int
 	failed               bool
@@ -379,15 +428,51 @@ func (s *memStream) Send(r *pb.SubscribeResponse) error {
 	}
 	s.mu.Lock()
 	s.cur = append(s.cur, o)
+	var msg *pb.SubscribeRequest
+	mode := 0
+	if o.Sync && s.armed != nil {
+		// the client has the sync_response in hand: it polls again at once
+		msg, mode = s.armed, s.armMode
+		s.armed, s.fired, s.split = nil, true, len(s.cur)
+	}
 	s.mu.Unlock()
+	if msg != nil {
+		if mode == 2 {
+			go func() { s.reqs <- msg }()
+		} else {
+			s.reqs <- msg
+			// Send returns only after the server has taken the trigger off the
+			// stream and had a moment to act on it
+			for t0 := time.Now(); len(s.reqs) > 0 && time.Since(t0) < 2*time.Millisecond; {
+				runtime.Gosched()
+			}
+			for t0 := time.Now(); time.Since(t0) < 100*time.Microsecond; {
+				runtime.Gosched()
+			}
+		}
+	}
 	return nil
 }
 
+// take returns what was recorded since the last call; when a trigger was fired
+// from inside a Send, the responses up to that sync_response first, and the rest
+// with the next call (they answer the trigger, which is the next step).
 func (s *memStream) take() []OResp {
 	s.mu.Lock()
 	defer s.mu.Unlock()
 	g := s.cur
 	s.cur = nil
+	if s.stash != nil {
+		g = append(s.stash, g...)
+		s.stash = nil
+	}
+	if s.split >= 0 && s.split <= len(g) {
+		first := g[:s.split:s.split]
+		s.stash = append([]OResp{}, g[s.split:]...)
+		s.split = -1
+		return first
+	}
+	s.split = -1
 	return g
 }
 
@@ -805,6 +890,17 @@ func addNoise(r *vh.Rand, c *Case) {
 		if c.Ops[i].K == "poll" && r.Chance(1, 5) {
 			c.Ops[i].Trig = 1 + r.Intn(2)
 		}
+		// a trigger that directly follows a walk: issued on receipt of its sync
+		if i > 0 && c.Ops[i].K == "poll" && c.Ops[i].Burst == 0 && c.Ops[i].IdleMS == 0 &&
+			(c.Ops[i-1].K == "sub" || c.Ops[i-1].K == "poll") && c.Ops[i-1].Burst == 0 && r.Chance(1, 2) {
+			c.Ops[i].At = 1 + r.Intn(2)
+		}
+	}
+	if c.HasACL {
+		if r.Chance(1, 2) {
+			c.ACLErr = 1 + r.Intn(8)
+		}
+		c.ACLDown = r.Chance(1, 20)
 	}
 }
 
@@ -872,7 +968,7 @@ func runScript(c *Case, withACL bool, faults bool) []*Run {
 	}
 	cache.Now = func() time.Time { return time.Unix(0, fakeNow) }
 	ca := cache.New(c.Targets, cacheOptions(c)...)
-	acl := &fakeACL{rows: c.ACL}
+	acl := &fakeACL{rows: c.ACL, errKind: c.ACLErr, down: c.ACLDown}
 	srv, _ := subscribe.NewServer(ca, serverOptions(c, withACL, acl)...)
 	ca.SetClient(srv.Update)
 
@@ -884,7 +980,7 @@ func runScript(c *Case, withACL bool, faults bool) []*Run {
 			ctx = context.WithValue(ctx, userKey{}, *user)
 		}
 		ctx, cancel := context.WithCancel(ctx)
-		return &rpc{st: &memStream{ctx: ctx, reqs: make(chan *pb.SubscribeRequest, 8), recvErr: make(chan struct{}, 1)}, cancel: cancel, done: make(chan struct{}), req: req}
+		return &rpc{st: &memStream{ctx: ctx, split: -1, reqs: make(chan *pb.SubscribeRequest, 8), recvErr: make(chan struct{}, 1)}, cancel: cancel, done: make(chan struct{}), req: req}
 	}
 	rpcs := []*rpc{mk(c.User, c.Req)}
 	if faults {
@@ -1056,6 +1152,16 @@ func runScript(c *Case, withACL bool, faults bool) []*Run {
 		if op.IdleMS > 0 && rpcs[0].started {
 			time.Sleep(time.Duration(op.IdleMS) * time.Millisecond) // a lower bound is all that matters
 		}
+		// the next step is a trigger the client issues on receipt of this walk's sync
+		if (op.K == "sub" || op.K == "poll") && c.Req != nil && c.Req.Mode == 2 && i+1 < len(c.Ops) {
+			if nx := c.Ops[i+1]; nx.K == "poll" && nx.At != 0 && nx.Burst == 0 && nx.IdleMS == 0 &&
+				!(faults && (c.RecvErrAt > 0 || c.SendFailAt != 0)) {
+				st := rpcs[0].st
+				st.mu.Lock()
+				st.armed, st.armMode = trigger(nx, rpcs[0].req), nx.At
+				st.mu.Unlock()
+			}
+		}
 		ob := OObs{CRes: "ok"}
 		switch op.K {
 		case "update", "remove", "addtarget", "churn", "aclset":
@@ -1071,7 +1177,13 @@ func runScript(c *Case, withACL bool, faults bool) []*Run {
 			}
 			ob.HasDump = true
 		case "poll":
-			if r := rpcs[0]; r.started && !r.closedReqs && !r.returned() {
+			rpcs[0].st.mu.Lock()
+			fired := rpcs[0].st.fired
+			rpcs[0].st.fired = false
+			rpcs[0].st.mu.Unlock()
+			if r := rpcs[0]; fired {
+				polls++ // the trigger was issued from inside the previous sync's Send
+			} else if r.started && !r.closedReqs && !r.returned() {
 				polls++
 				if faults && c.RecvErrAt > 0 && polls == c.RecvErrAt {
 					r.st.recvErr <- struct{}{}
@@ -1082,6 +1194,9 @@ func runScript(c *Case, withACL bool, faults bool) []*Run {
 			ob.HasDump = true
 		}
 		waitQuiet()
+		rpcs[0].st.mu.Lock()
+		rpcs[0].st.armed = nil // not fired (no sync came): the next step sends its trigger itself
+		rpcs[0].st.mu.Unlock()
 		if ob.HasDump && !hung {
 			ob.Dump = dumpCache(ca, c.Targets)
 		} else {
@@ -1328,6 +1443,9 @@ func (f *caseFile) caseTerm(c *Case) string {
 	cuser, creq := c.User, c.Req
 	if c.View == "b" {
 		cuser, creq = c.User2, c.Req2
+	}
+	if c.HasACL && c.ACLDown {
+		cuser = nil // no per-call ACL can be made for anybody
 	}
 	user := "None"
 	if cuser != nil {
